@@ -222,17 +222,38 @@ def r04_5_reader(cx):
 def r04_5_iter(cx):
     b = cx.body('dfa::sparse_iter')
     ri = [b.call_term(bi, t) for bi, t in b.calls(r'RangeInclusive::new$')]
-    ok = len(ri) == 1 and is_var(ri[0][2][0], 'byte') and ri[0][2][1] == ('c', 255)
+    ok = len(ri) == 1 and is_var(ri[0][2][0]) and ri[0][2][1] == ('c', 255)
     cx.report('R04.5', b, 'tail-range', ok, 'after the last explicit transition the remaining bytes byte..=255 are visited' if ok else 'sparse_iter tail range is %s (byte 0xFF or others are never visited)' % [tstr(x, 80) for x in ri])
-    BYTE = ('v', 'byte', b.locals_named('byte')[0])
+    if not ok:
+        return
+    BYTE = ri[0][2][0]
     defs = var_defs_terms(b, BYTE[2])
-    okb = sorted(affine_str(t) for bi, si, t in defs) == ['+0', '+byte +1', '+byte +1']
+
+    def bnorm(y):
+        return atom('B') if y == BYTE else None
+    okb = sorted(affine_str(rewrite(expand_vars(b, t, keep=lambda v: v == BYTE), bnorm)) for bi, si, t in defs) == ['+0', '+B +1', '+B +1']
     cx.report('R04.5', b, 'byte-counter', okb, 'the byte counter starts at 0 and advances by exactly 1 per visited byte' if okb else 'byte counter updates: %s' % [tstr(t, 40) for _, _, t in defs])
-    calls = [b.call_term(bi, t) for bi, t in b.calls(r'FnMut::call_mut$')]
-    kinds = sorted(tstr(c[2][1][3][2], 60) for c in calls if is_agg(c[2][1], 'tuple') and len(c[2][1][3]) == 3)
-    okc = kinds == ['nfa::noncontiguous::NFA::FAIL', 'nfa::noncontiguous::NFA::FAIL', 'nfa::noncontiguous::Transition::next(t)']
+    calls = [expand_vars(b, b.call_term(bi, t)) for bi, t in b.calls(r'FnMut::call_mut$')]
+
+    def third(c):
+        x = peel_all(c[2][1][3][2])
+        if is_named_const(x, r'NFA::FAIL$'):
+            return 'FAIL'
+        if (is_call(x, r'Transition::next$') or (x[0] == 'f' and x[2] == 'next')) and 'iter_trans' in tstr(x, 400):
+            return 'target'
+        return tstr(x, 60)
+    kinds = sorted(third(c) for c in calls if is_agg(c[2][1], 'tuple') and len(c[2][1][3]) == 3)
+    okc = kinds == ['FAIL', 'FAIL', 'target']
     cx.report('R04.5', b, 'callbacks', okc, 'gaps are reported as FAIL, explicit transitions with their target' if okc else 'sparse_iter callbacks carry %s' % kinds)
-    g = bool_gates(b, lambda x: x[0] == 'op' and x[1] == 'Lt' and x[2] == BYTE and 'Transition::byte(t)' in tstr(x[3]))
+
+    def gap(x):
+        x = expand_vars(b, x, keep=lambda v: v == BYTE)
+        if not (x[0] == 'op' and x[1] in ('Lt', 'Gt')):
+            return False
+        lo, hi = (x[2], x[3]) if x[1] == 'Lt' else (x[3], x[2])
+        hi = strip_convs(hi)
+        return strip_convs(lo) == BYTE and (is_call(hi, r'Transition::byte$') or (hi[0] == 'f' and hi[2] == 'byte'))
+    g = bool_gates(b, gap)
     cx.report('R04.5', b, 'gap-loop', bool(g), 'gaps before a transition are walked while byte < t.byte()' if g else 'gap loop condition deviates')
     s = cx.body('util::alphabet::ByteClassSet::set_range')
     adds = [(bi, s.call_term(bi, t)) for bi, t in s.calls(r'ByteSet::add$')]
@@ -262,7 +283,9 @@ def r04_5_iter(cx):
 def r04_5_dfa(cx):
     """DFA construction: a missing transition follows the failure link unless the state's failure link is DEAD (or anchored)"""
     from rules.builder import closure_with
-    for prefix, cap in (('dfa::Builder::finish_build_one_start', 'anchored'), ('dfa::Builder::finish_build_both_starts', 'anewsid')):
+    from rules.dfabuild import r_one_start_closure
+    r_one_start_closure(cx, ids=('R04.5',))
+    for prefix, cap in (('dfa::Builder::finish_build_both_starts', 'anewsid'),):
         c = closure_with(cx, prefix, cap)
         dg = bool_gates(c, lambda x: eq_cond(x) is not None and any('State::fail' in tstr(s0) for s0 in eq_cond(x)[:2]) and any('NFA::DEAD' in tstr(s0) for s0 in eq_cond(x)[:2]))
         nx = [bi for bi, t in c.calls(r'next_state$')]
